@@ -366,22 +366,14 @@ class Session:
         else:
             res = self.classify(err)
         grepo = []
-        def shown(m):
-            """string models of earlier loads are not reported (see LoaderRepo!Summary)"""
-            lb = self.label(m)
-            return not (lb["f"] == "~" and lb["a"] != self.attempt)
-
         for rid, repo in sorted(self.repo_of.items()):
             for k, m in repo.all_models.filename_to_model.items():
-                if shown(m):
-                    grepo.append({"r": rid, "f": self.repo_key(k, m), "m": self.label(m)})
+                grepo.append({"r": rid, "f": self.repo_key(k, m), "m": self.label(m)})
         incl, local, params, tg = [], [], [], []
         if err is None:
             models = []
             if hasattr(model, "_tx_model_repository"):
                 for k, m in model._tx_model_repository.all_models.filename_to_model.items():
-                    if not shown(m):
-                        continue
                     models.append(m)
                     lb = self.label(m)
                     want = "~" + str(lb["a"]) if lb["f"] == "~" else lb["f"]
@@ -714,7 +706,7 @@ def random_scenario(rng, profile):
     def load(f=None):
         f = f or rng.choice(files)
         how = rng.choice(["file", "file", "file", "strfile"])
-        if (glob_kind or not imports[f]) and rng.random() < 0.25:
+        if (glob_kind or not imports[f]) and rng.random() < (0.45 if profile in ("C17", "C18") else 0.25):
             how = "str"
         if profile == "C27":
             given = sorted(rng.sample(["p", "q", "project_root", "zzz"], rng.choice([0, 1, 1, 2, 3])))
@@ -723,7 +715,7 @@ def random_scenario(rng, profile):
         return {"op": "load", "file": f, "how": how, "given": given,
                 "vals": rng.choice(["std", "std", "none", "falsy"]) if profile == "C27" else "std"}
 
-    session = [load() for _ in range(rng.choice([1, 2, 2, 3]))]
+    session = [load() for _ in range(rng.choice([1, 2, 2, 3, 4]))]
     if fault["kind"] != "none":
         session.append({"op": "repair", "file": "-", "how": "-", "given": [], "vals": "-"})
         session += [load(session[-2]["file"])] + [load() for _ in range(rng.choice([0, 1, 2]))]
@@ -751,7 +743,10 @@ def check_family(rep, pid, findings, size, shards=None, sample=None, rng=None, n
         rep.add_mc(f"MC_LoaderRepo[{pid},{size}]", merge_results(rs), INVARIANTS)
         todo = scs
         if sample is not None and nfam > sample:
-            todo = rng.sample(scs[:nfam], sample) + scs[nfam:]
+            # small strata are replayed completely: histories with several string main models
+            must = [sc for sc in scs[:nfam] if sum(op["how"] == "str" for op in sc["session"]) >= 3]
+            rest = [sc for sc in scs[:nfam] if sum(op["how"] == "str" for op in sc["session"]) < 3]
+            todo = must + rng.sample(rest, max(0, min(len(rest), sample - len(must)))) + scs[nfam:]
         for sc in todo:
             hist, _ = run_scenario(sc, root)
             nt = nontrivial(sc, hist) if nontrivial else True
@@ -867,8 +862,8 @@ ASSUMPTIONS = [
     "for a name defined in one model; with RREL every file has a reference (models are connected to the "
     "repositories per reference there); model_from_str without file name only with GlobalRepo providers or "
     "for models without imports; imported files exist; the glob pattern matches at least one file",
-    "models without file name that earlier loads left in a global repository are not reported (whether they "
-    "stay is not stated anywhere); the one of the current load is",
+    "a model without file name that takes part in multi-file loading has a repository entry of its own (the "
+    "invented key anonymous<N> is reported as ~<load>): removed when its load fails, kept when it succeeds",
     "where the documents do not decide, the module allows every choice: order of globbed files, which of "
     "several loaded models defining a name is the target, which of several offending references is reported, "
     "order of object processors across models, whether a failed load leaves the entry it added for a model "
